@@ -39,6 +39,7 @@ type CField struct {
 	Kind   string
 	Canon  string
 	Nested bool
+	Absent bool // the context defines the term, this credential does not set the field
 }
 
 type ACred struct {
@@ -107,14 +108,23 @@ func randCred(r *Rng, serialized bool) *ACred {
 			// the attribute names a field this credential does not have: building the claim fails - after other slots may
 			// have been filled already. What was prepared for the failed build must not reach the next one
 			gone := strings.SplitN(parts[len(parts)-1], "=", 2)[1]
-			var kept []CField
-			for _, f := range c.Fields {
-				if f.Name != gone {
-					kept = append(kept, f)
+			if r.Bool() {
+				// the term stays defined in the context, the credential simply does not set the field
+				for i := range c.Fields {
+					if c.Fields[i].Name == gone && !c.Fields[i].Nested {
+						c.Fields[i].Absent = true
+					}
 				}
-			}
-			if len(kept) > 0 {
-				c.Fields = kept
+			} else {
+				var kept []CField
+				for _, f := range c.Fields {
+					if f.Name != gone {
+						kept = append(kept, f)
+					}
+				}
+				if len(kept) > 0 {
+					c.Fields = kept
+				}
 			}
 		}
 	}
@@ -224,6 +234,9 @@ func (c *ACred) JSON() []byte {
 	}
 	var nested OObj
 	for _, f := range c.Fields {
+		if f.Absent {
+			continue
+		}
 		if f.Nested {
 			nested = append(nested, KV{strings.TrimPrefix(f.Name, "addr."), f.JSON})
 		} else {
